@@ -14,15 +14,29 @@ CHECK = {
              "replaced tree; transform_negated_joins with volume sets {}, {i}, {i,j}, all (volumes "
              "keep their function, no negated join left) followed by explicit infix (fully "
              "parenthesised and with the outer parentheses omitted, in front of a guard page) -> "
-             "InfixEvaluator on every node. K = 6 (quick) / 7 (thorough). non-trivial = distinct (tree shape, set of branch tags reached) class "
+             "InfixEvaluator on every node; transform_negated_joins ALSO on every tree produced by "
+             "replace_and_simplify (aliases and literal constants inside; volume sets {}, {all alias "
+             "nodes + unreferenced nodes}, each alias node, each negated surface; agreement on the "
+             "consistent assignments). K = 6 (quick) / 7 (thorough).  Second lattice (both tiers): "
+             "right-nested alternating all/any chains over the 4 surfaces, plain and with every "
+             "second level negated, both outer operators, both labellings, with postfix stack depth "
+             "5, 8, 9, 15, 16, 17, 24, 31, 32, 33, 40, M-2, M-1, M, M+1, M+8 (M = "
+             "LogicStack::max_stack_depth() = 64 in this host build): encoders on the root for depth "
+             "< M, and a hand-made UnitInput -> OrangeParams for every depth (rejected with the "
+             "logic-depth error iff depth >= M; else scalars.max_logic_depth == depth and "
+             "LogicEvaluator on the stored logic reproduces the truth table). non-trivial = distinct (tree shape, set of branch tags reached) class "
              "of a state with >= 2 nodes."),
     "assumptions": [
         "surface identity matters only through the numeric LocalSurfaceId order: surfaces are "
         "introduced in canonical order and two labellings ({0,1,2,3} and the sparse, non-monotone "
         "{5,1,6,3}) are run",
         "replace_and_simplify is applied once per tree (a second call trips its own debug "
-        "assertions on literal True nodes), transform_negated_joins only to alias-free trees "
-        "(documented precondition), both as production / the unit tests do",
+        "assertions on literal True nodes)",
+        "transform_negated_joins is applied to alias-free insert-built trees and to the aliased "
+        "trees that replace_and_simplify produces (DeMorganSimplifier dereferences aliases "
+        "throughout, the library's unit test transform_negated_joins_with_aliases runs it on one, "
+        "and the property quantifies over trees with aliases); trees with a double negation "
+        "(possible only through an alias) stay excluded as its class comment demands",
         "this commit has no production tree->infix converter (transform_negated_joins and "
         "InfixEvaluator are only reached from unit tests): the harness emits the documented explicit "
         "infix form of the De Morgan'ed tree; expressions containing the constant False cannot be "
@@ -33,9 +47,11 @@ CHECK = {
         "detected by the harness's own tree analysis before any library visitor is called",
     ],
     "bounds": {"quick": {"effective_inserts_per_labelling": 6, "labellings": 2,
-                         "surfaces": 4, "operands": 3},
+                         "surfaces": 4, "operands": 3,
+                         "chain_stack_depths": "5..40 and M-2..M+8 (16 values), x2 operators x2 negation patterns x2 labellings"},
                "thorough": {"effective_inserts_per_labelling": 7, "labellings": 2,
                             "surfaces": 4, "operands": 3, "asan_part_effective_inserts": 5,
+                            "chain_stack_depths": "as quick (also in the asan part)",
                             "note": "labelling 1: the depth-7 leaves get the encoder checks only "
                                     "(postfix/flagger/string/sense: the operations that read surface "
                                     "ids); simplify/replace/De Morgan run there up to depth 6 and "
@@ -64,6 +80,6 @@ META = {
              "table of the intended expression over all sense assignments, so equivalence is decided "
              "for every tree in the bound, not for hand-picked ones."),
     "note": ("Trusts: the harness's own evaluator/parser (60 lines); surface symmetry argument "
-             "(two labellings); trees deeper than K effective inserts and operand lists longer than 3 "
-             "are outside the bound."),
+             "(two labellings); trees deeper than K effective inserts (other than the directed chain "
+             "family) and operand lists longer than 3 are outside the bound."),
 }
